@@ -443,10 +443,17 @@ class Partitioner:
             rank, lambda expr: Symbol(part_rank.lower()) in expr.atoms(Symbol))
         sym_step = CoordAccess.build_expr(
             CoordAccess.isolate_rank(expr, part_rank))
+
+        # A compound step substituted inside a larger expression (e.g. the
+        # ceiling division of an n-way split scaled by a stride) must keep
+        # its own precedence
+        part_var = EVar(part_rank.lower())
+        if sym_step != part_var and isinstance(step, EBinOp):
+            step = EParens(step)
+
         rank_step = cast(
             Expression, TransUtils.sub_hifiber(
-                sym_step, EVar(
-                    part_rank.lower()), step))
+                sym_step, part_var, step))
 
         args.append(AJust(rank_step))
         args.append(AParam("depth", EInt(depth)))
